@@ -46,7 +46,7 @@ def make_candles(kind, n, seed, scale=100.0, t0=T0):
         steps = np.zeros(n)
     elif kind == 'monotone':
         steps = np.full(n, 0.003)
-    elif kind in ('lattice', 'leading-zero-volume', 'gappy'):
+    elif kind in ('lattice', 'leading-zero-volume', 'gappy', 'flat-middle'):
         steps = rng.normal(0, 0.008, n)
     else:
         raise ValueError(kind)
@@ -75,6 +75,19 @@ def make_candles(kind, n, seed, scale=100.0, t0=T0):
         high = np.maximum(q(high), np.maximum(open_, close))
         low = np.maximum(np.minimum(q(low), np.minimum(open_, close)), g)
         vol = np.round(vol / 100) * 100 + 100
+    if kind == 'flat-middle':
+        # a run of completely flat candles (O=H=L=C, no volume: gap-filled minutes) somewhere inside the series
+        k = int(rng.integers(15, max(16, n // 4)))
+        a = int(rng.integers(n // 4, max(n // 4 + 1, n - k - 10)))
+        level = close[a - 1]
+        shift = close[a + k - 1] - level
+        open_[a:a + k] = close[a:a + k] = high[a:a + k] = low[a:a + k] = level
+        vol[a:a + k] = 0.0
+        # continue from the flat level afterwards
+        open_[a + k:], close[a + k:], high[a + k:], low[a + k:] = open_[a + k:] - shift, close[a + k:] - shift, high[a + k:] - shift, low[a + k:] - shift
+        open_[a + k] = level
+        high[a + k], low[a + k] = max(high[a + k], level), min(low[a + k], level)
+        low = np.maximum(low, scale * 1e-6)
     if kind == 'leading-zero-volume':
         # an imported series that starts with gap-filled (flat, zero-volume) candles
         k = int(rng.integers(5, max(6, n // 2)))
